@@ -29,6 +29,15 @@ var (
 	deadlineFlag = flag.Int("deadline", 0, "internal deadline in seconds (0 = tier default)")
 )
 
+// Out is where evidence/ and replays/ are written (VERIF_OUT, default Root); mutation runs
+// against scratch trees point it elsewhere so committed evidence is not disturbed.
+var Out = func() string {
+	if r := os.Getenv("VERIF_OUT"); r != "" {
+		return r
+	}
+	return Root
+}()
+
 // Finding is one line of known_findings.txt.
 type Finding struct {
 	Property string
@@ -184,7 +193,7 @@ func (r *Report) NViolations() int { return len(r.viol) }
 func (r *Report) Finish() {
 	unknown := 0
 	sort.SliceStable(r.viol, func(i, j int) bool { return r.viol[i].Sig < r.viol[j].Sig })
-	os.MkdirAll(filepath.Join(Root, "replays"), 0o755)
+	os.MkdirAll(filepath.Join(Out, "replays"), 0o755)
 	for _, v := range r.viol {
 		var kf *Finding
 		for i := range r.findings {
@@ -198,7 +207,7 @@ func (r *Report) Finish() {
 		}
 		unknown++
 		r.nReplay++
-		path := filepath.Join(Root, "replays", fmt.Sprintf("%s-%s-%d.json", r.ID, r.Tier, r.nReplay))
+		path := filepath.Join(Out, "replays", fmt.Sprintf("%s-%s-%d.json", r.ID, r.Tier, r.nReplay))
 		b, _ := json.MarshalIndent(map[string]interface{}{"property": r.ID, "signature": v.Sig, "detail": v.Detail, "replay": v.Replay}, "", " ")
 		os.WriteFile(path, b, 0o644)
 		fmt.Printf("VIOLATION property=%s replay=%s\n", r.ID, path)
@@ -229,7 +238,7 @@ func (r *Report) Finish() {
 		"seed":        r.Seed,
 		"level":       r.Level,
 		"coverage":    cov,
-		"assumptions": r.Assumptions,
+		"assumptions": append([]string{}, r.Assumptions...),
 		"wall_s":      time.Since(r.start).Seconds(),
 		"violations":  unknown,
 	}
@@ -242,9 +251,9 @@ func (r *Report) Finish() {
 		}
 	}
 	cov["known_findings_reproduced"] = known
-	os.MkdirAll(filepath.Join(Root, "evidence"), 0o755)
+	os.MkdirAll(filepath.Join(Out, "evidence"), 0o755)
 	b, _ := json.MarshalIndent(ev, "", " ")
-	if err := os.WriteFile(filepath.Join(Root, "evidence", r.ID+".json"), b, 0o644); err != nil {
+	if err := os.WriteFile(filepath.Join(Out, "evidence", r.ID+".json"), b, 0o644); err != nil {
 		fmt.Fprintln(os.Stderr, "cannot write evidence:", err)
 		os.Exit(2)
 	}
